@@ -36,6 +36,7 @@ type exhaustiveConfig struct {
 	NonTrivialInLists int64
 	Reentrant         bool
 	Buffers           bool
+	Born              bool
 }
 
 func exhaustiveConfigs() []exhaustiveConfig {
@@ -52,6 +53,9 @@ func exhaustiveConfigs() []exhaustiveConfig {
 		// stale items (alphabet 9)
 		{Shape: ShapeExpirable, Cap: 1, Keys: 2, DepthQ: 4, DepthT: 6},
 		{Shape: ShapeExpirable, Cap: 2, Keys: 2, DepthQ: 4, DepthT: 6},
+		// items that are already expired when the create function returns them, in runs of 1 and 3 per key (alphabet 13)
+		{Shape: ShapeExpirable, Cap: 1, Keys: 2, DepthQ: 4, DepthT: 5, Born: true},
+		{Shape: ShapeExpirable, Cap: 2, Keys: 2, DepthQ: 4, DepthT: 5, Born: true},
 		// re-entrant create functions: the alphabet additionally has, per key, GetOrCreate whose create function
 		// first calls GetOrCreate(ok|error) / Remove / GetOrCreate{GetOrCreate} on the other key(s)
 		// the caller re-uses its PK buffers: PKs stored in the cache are overwritten behind its back (alphabet 13 / 19)
@@ -86,6 +90,9 @@ func TestC08Exhaustive(t *testing.T) {
 		}
 		if cfg.Reentrant {
 			alpha = append(alpha, ReentrantAlphabet(cfg.Keys)...)
+		}
+		if cfg.Born {
+			alpha = append(alpha, BornAlphabet(cfg.Keys)...)
 		}
 		cfg.Alphabet = int64(len(alpha))
 		cfg.Depth = vstat.Pick(cfg.DepthQ, cfg.DepthT)
@@ -129,6 +136,7 @@ func genNested(t *rapid.T, shape string, nk, depth int) []Op {
 		case kind < 7:
 			op.K = "g"
 			op.Fail = rapid.IntRange(0, 5).Draw(t, "nestedFail") == 0
+			op.Born = genBorn(t, shape, "nestedBorn")
 			if depth < MaxDepth && nk > 2 && rapid.IntRange(0, 3).Draw(t, "deeper") == 0 {
 				op.Nested = genNested(t, shape, nk, depth+1)
 			}
@@ -140,6 +148,19 @@ func genNested(t *rapid.T, shape string, nk, depth int) []Op {
 		prog = append(prog, op)
 	}
 	return prog
+}
+
+// genBorn draws Op.Born for a GetOrCreate of the expirable shape: one call in four orders a run of 1..MaxBorn
+// creations for its key that return an already-expired item (a source that lags behind); the run is consumed by
+// this call (at most two creations) and by the following calls that touch the key.
+func genBorn(t *rapid.T, shape, label string) int {
+	if shape != ShapeExpirable {
+		return 0
+	}
+	if b := rapid.IntRange(-3*MaxBorn+1, MaxBorn).Draw(t, label); b > 0 {
+		return b
+	}
+	return 0
 }
 
 // genOps draws an op list for a configuration.
@@ -164,7 +185,7 @@ func genOps(t *rapid.T, shape string, nk, maxLen int, heavy bool) []Op {
 		}
 		switch {
 		case kind < gEnd:
-			op := Op{K: "g", Key: key, Var: vr, Buf: buf, Fail: rapid.IntRange(0, 5).Draw(t, "fail") == 0}
+			op := Op{K: "g", Key: key, Var: vr, Buf: buf, Fail: rapid.IntRange(0, 5).Draw(t, "fail") == 0, Born: genBorn(t, shape, "born")}
 			if nk > 1 && rapid.IntRange(0, 5).Draw(t, "reentrant") == 0 { // the create function uses the cache itself
 				op.Nested = genNested(t, shape, nk, 1)
 			}
